@@ -24,7 +24,7 @@ inductive GTok where
 def charBytes (c : Char) : List UInt8 := (String.singleton c).toUTF8.toList
 
 def isPlain (c : Char) : Bool :=
-  !(c == '*' || c == '?' || c == '[' || c == ']' || c == '{' || c == '}' || c == '\\' || c == '/' || c == '!' || c == '^' || c == '-')
+  !(c == '*' || c == '?' || c == '[' || c == ']' || c == '{' || c == '}' || c == '\\' || c == '!' || c == '^' || c == '-')
 
 /-- class body after `[` (and optional negation): simple ASCII alphanumerics and `a-z` ranges -/
 def parseClassBody : List Char → List (UInt8 × UInt8) → Option (List (UInt8 × UInt8) × List Char)
